@@ -623,6 +623,8 @@ def stmt_units(tier):
         for tp in prefs:
             if tier == "quick" and tn["n"] == 3 and tp["n"] == 3:
                 continue
+            if tn["n"] >= 4 and tp["n"] >= 4:
+                continue  # n4 x p4 does not exhaust within 10 CPU-minutes
             mk(["iri", "bnode", "lit"], tn, tp, d0, 600)
     for td in dts:
         mk(["bnode", "bnode", "tlit"], dict(n=2, m=0), dict(n=2, m=0, e=0), td)
